@@ -24,6 +24,8 @@ pub enum MockReply {
     Forbidden,
     ServerError,
     Garbage,
+    /// 200 with a JSON object that names nobody: {} / an error object / id or name missing
+    Nobody(u8),
 }
 
 #[derive(Clone, Debug, Serialize, Deserialize)]
@@ -47,6 +49,32 @@ fn mock() -> &'static HttpMock {
         unsafe { std::env::set_var("PASSAGE_VERIF_SESSION_BASE", format!("http://127.0.0.1:{}", m.port)) };
         m
     })
+}
+
+/// bodies of a 200 answer in which the session service vouches for nobody
+pub fn nobody_body(k: u8) -> Vec<u8> {
+    match k % 6 {
+        0 => b"{}".to_vec(),
+        1 => b"{\"error\":\"ForbiddenOperationException\",\"errorMessage\":\"Invalid token\"}".to_vec(),
+        2 => b"{\"name\":\"Somebody\"}".to_vec(),
+        3 => b"{\"id\":\"069a79f444e94726a5befca90e38aaf5\"}".to_vec(),
+        4 => b"{\"id\":\"069a79f444e94726a5befca90e38aaf5\",\"properties\":[]}".to_vec(),
+        _ => b"{\"name\":\"Somebody\",\"properties\":[],\"profileActions\":[]}".to_vec(),
+    }
+}
+
+/// the adapter's verdict for a 200 answer with this body (true = it returned a profile)
+pub fn verdict_for_body(body: Vec<u8>) -> Option<bool> {
+    let m = mock();
+    {
+        let mut s = m.state.lock().unwrap();
+        s.next = Some(Reply { status: 200, body, content_type: "application/json" });
+    }
+    let adapter = MojangAdapter::default();
+    let client: std::net::SocketAddr = "192.0.2.1:5555".parse().unwrap();
+    let id = uuid::Uuid::from_u128(1);
+    let r = mocks::rt().block_on(async { tokio::time::timeout(std::time::Duration::from_secs(20), adapter.authenticate(&client, ("h", 25565), 770, ("Claimed", &id), &[1u8; 16], &[2u8; 8])).await }).ok()?;
+    Some(r.is_ok())
 }
 
 /// application/x-www-form-urlencoded / percent decoding of one query component
@@ -86,6 +114,7 @@ fn decide(case: &Case, info: &mut CaseInfo) -> Verdict {
         MockReply::Forbidden => Reply { status: 403, body: b"{\"error\":\"Forbidden\"}".to_vec(), content_type: "application/json" },
         MockReply::ServerError => Reply { status: 500, body: b"oops".to_vec(), content_type: "text/plain" },
         MockReply::Garbage => Reply { status: 200, body: b"<html>not json</html>".to_vec(), content_type: "text/html" },
+        MockReply::Nobody(k) => Reply { status: 200, body: nobody_body(*k), content_type: "application/json" },
     };
     let before = {
         let mut s = m.state.lock().unwrap();
@@ -165,6 +194,7 @@ fn decide(case: &Case, info: &mut CaseInfo) -> Verdict {
             }
         }
         (MockReply::Profile { .. }, Err(e)) => return Verdict::Fail { sig: "profile-rejected".into(), msg: format!("{e}") },
+        (MockReply::Nobody(_), Ok(p)) => return Verdict::Fail { sig: "verdict-for-nobody".into(), msg: format!("the session service answered {:?} (no id / name), the adapter returned the profile {p:?}", String::from_utf8_lossy(&m.state.lock().unwrap().next.as_ref().map(|r| r.body.clone()).unwrap_or_default())) },
         (_, Ok(p)) => return Verdict::Fail { sig: "verdict-without-profile".into(), msg: format!("reply {:?} but the adapter returned {p:?}", case.reply) },
         (_, Err(_)) => {}
     }
@@ -230,6 +260,7 @@ impl Check for C12 {
             1 => Just(MockReply::Forbidden),
             1 => Just(MockReply::ServerError),
             1 => Just(MockReply::Garbage),
+            2 => (0u8..6).prop_map(MockReply::Nobody),
         ];
         (name, prop_oneof![3 => Just(String::new()), 1 => "[ -~]{0,20}", 1 => "\\PC{0,12}"], proptest::collection::vec(any::<u8>(), 16..=16), proptest::collection::vec(any::<u8>(), 0..200), reply)
             .prop_map(|(name, server_id, secret, key, reply)| Case { name, server_id, secret, key, reply })
